@@ -35,13 +35,14 @@ from ttconv.time_code import ClockTime
 class SrtParagraph:
   """SRT paragraph definition class"""
 
-  _EOL_SEQ_RE = re.compile(r"\n{2,}")
+  _EOL_SEQ_RE = re.compile(r"(?:\r\n|\r|\n){2,}")
 
   def __init__(self, identifier: int):
     self._id: int = identifier
     self._begin: Optional[ClockTime] = None
     self._end: Optional[ClockTime] = None
     self._text: str = ""
+    self._plain: str = ""
 
   def set_begin(self, offset: Fraction):
     """Sets the paragraph begin time code"""
